@@ -37,6 +37,9 @@ type c18Job struct {
 	// Dup: rows carry no unique tag, only a few low-cardinality values, so that after the first few calls no row
 	// introduces a new (column,value) pair (the ordinary use of a count index)
 	Dup bool `json:"dup"`
+	// Ticket: the goroutines draw row numbers from one shared counter until Total is reached, so that all of them are
+	// still calling AddRow when the last rows are added (with fixed shares the tail belongs to the slowest goroutine alone)
+	Ticket bool `json:"ticket"`
 }
 
 type c18Op struct {
@@ -132,6 +135,7 @@ func workerC18(args []string) int {
 			})
 		}
 		start := time.Now()
+		var ticket int64
 		per := make([][]c18Op, job.Goroutines)
 		panics := make([][]string, job.Goroutines)
 		var wg, ready sync.WaitGroup
@@ -145,9 +149,17 @@ func workerC18(args []string) int {
 				if g < job.Total%job.Goroutines {
 					n++
 				}
+				if job.Ticket {
+					n = job.Total
+				}
 				ready.Done()
 				<-gate
 				for i := 0; i < n; i++ {
+					if job.Ticket {
+						if i = int(atomic.AddInt64(&ticket, 1)) - 1; i >= job.Total {
+							break
+						}
+					}
 					row := c18Row(g, i, job.Dup)
 					op := c18Op{G: g, I: i}
 					var id uint32
@@ -203,6 +215,7 @@ func runC18(r *vf.Run) {
 	r.Rule("one evaluation = one concurrent AddRow history (2-32 goroutines, barrier start, child built with the race detector, optional yields injected through the verif hook inside AddRow and at the big writer's temp commit) followed by Flush; " +
 		"checked: returned ids are exactly 0..n-1, real-time order (a call that returned before another began has the smaller id; porcupine counter model on the small histories), " +
 		"and the flushed index equals the one a sequential insertion in id order produces (per-tag count 1, per-value membership, universe size, full probe set); " +
+		"tiny histories: tens of thousands of histories of 4-16 goroutines x 2-5 rows (plain build) each followed by Flush at once and verified completely (every tag on one row of its own); " +
 		"distinct_nontrivial = distinct interleavings (sequence of goroutine numbers in row-id order)")
 	r.Assume("schedules are those the stress produced; distinct interleavings are counted")
 	if !haveBin("vcheck.race") {
@@ -223,6 +236,8 @@ func runC18(r *vf.Run) {
 				reps = r.Pick(20, 300)
 			} else if r.Thorough() {
 				reps = 24
+			} else if total%1000 <= 3 || total%1000 == 999 {
+				reps = 4 // around the big writer's commit boundary the tail of the history matters
 			}
 			for rep := 0; rep < reps; rep++ {
 				g := gs[rng.Intn(len(gs))]
@@ -230,11 +245,11 @@ func runC18(r *vf.Run) {
 					g = 2
 				}
 				id := fmt.Sprintf("job%03d-%s-n%d-g%d", k, w, total, g)
-				jobs = append(jobs, c18Job{ID: id, Writer: w, Goroutines: g, Total: total, Yield: k%3 != 2, Out: filepath.Join(dir, id+".updog")})
+				jobs = append(jobs, c18Job{ID: id, Writer: w, Goroutines: g, Total: total, Yield: k%3 != 2, Ticket: rep%2 == 1 || (total > 64 && k%2 == 0), Out: filepath.Join(dir, id+".updog")})
 				k++
 				if total >= 999 || rep%4 == 0 {
 					did := fmt.Sprintf("job%03d-%s-dup-n%d-g%d", k, w, total, g)
-					jobs = append(jobs, c18Job{ID: did, Writer: w, Goroutines: g, Total: total, Yield: k%2 == 0, Dup: true, Out: filepath.Join(dir, did+".updog")})
+					jobs = append(jobs, c18Job{ID: did, Writer: w, Goroutines: g, Total: total, Yield: k%2 == 0, Dup: true, Ticket: k%4 < 2, Out: filepath.Join(dir, did+".updog")})
 					k++
 				}
 			}
@@ -289,6 +304,7 @@ func runC18(r *vf.Run) {
 			c18Check(r, cid+"/"+jr.ID, byID[jr.ID], jr)
 		}
 	})
+	c18Tiny(r, dir)
 	r.Floor("totals on both sides of the big writer's 1000-row commit", r.HasCover("totals", "999") && r.HasCover("totals", "1001") && r.HasCover("totals", "2001"))
 	r.Floor("both writers", r.Covered("writers") == 2)
 	r.Floor("histories whose rows carry no unique tag", r.GetCount("histories_without_unique_tags") > 0)
@@ -304,8 +320,11 @@ func c18Check(r *vf.Run, cid string, job c18Job, jr c18Result) {
 	r.Cover("writers", job.Writer)
 	r.Cover("totals", fmt.Sprint(job.Total))
 	r.Cover("goroutine_counts", fmt.Sprint(job.Goroutines))
+	if job.Ticket {
+		r.Count("histories_with_shared_row_counter", 1)
+	}
 	w := func(extra map[string]any) map[string]any {
-		m := map[string]any{"writer": job.Writer, "goroutines": job.Goroutines, "rows": job.Total, "yield_injection": job.Yield}
+		m := map[string]any{"writer": job.Writer, "goroutines": job.Goroutines, "rows": job.Total, "yield_injection": job.Yield, "shared_row_counter": job.Ticket}
 		for k, v := range extra {
 			m[k] = v
 		}
@@ -444,11 +463,14 @@ func c18Check(r *vf.Run, cid string, job c18Job, jr c18Result) {
 	if n > 600 {
 		step = n / 300
 	}
-	for id := 0; id < n && !job.Dup; id += step {
+	for id := 0; id < n && !job.Dup; id++ {
 		row := rows[id]
 		tag := oracle.Eq("tag", row["tag"])
-		if !check(tag, 1, "every added row appears exactly once") {
+		if !check(tag, 1, "every added row appears exactly once") { // every row, not a sample: a lost row is one row
 			return
+		}
+		if id%step != 0 {
+			continue
 		}
 		for c, v := range row {
 			if c != "tag" && !check(oracle.And(tag, oracle.Eq(c, v)), 1, "all values of a row sit on one single row") {
